@@ -58,6 +58,7 @@ type vhLN struct {
 	Created   int
 	StatusQ   int
 	InvoiceQ  int
+	WatcherLive bool
 	MaxScript int
 }
 
@@ -136,12 +137,18 @@ func (l *vhLN) FeeReserve(amount uint64) uint64 {
 }
 func (l *vhLN) SubscribeInvoice(ctx context.Context, paymentHash string) (lightning.InvoiceSubscriptionClient, error) {
 	v.Yield("Client.SubscribeInvoice")
-	return &vhSub{hash: paymentHash}, nil
+	return &vhSub{hash: paymentHash, live: l.WatcherLive}, nil
 }
 
-type vhSub struct{ hash string }
+type vhSub struct {
+	hash string
+	live bool
+}
 
 func (s *vhSub) Recv() (lightning.Invoice, error) {
+	if !s.live {
+		select {} // the background watcher started by RequestMintQuote stays silent unless a harness schedules it
+	}
 	if v.Int("ln.sub.err", 0, 1) == 1 {
 		return lightning.Invoice{}, errors.New("scripted backend: subscription closed")
 	}
